@@ -104,6 +104,40 @@ def _worker(args):
     return out, seen_funcs()
 
 
+def _xsolve_file(path):
+    """re-solve one dumped query with cvc5 (python API) and the system z3 binary -> (z3 verdict, cvc5, z3old)"""
+    import subprocess
+    txt = open(path).read()
+    want = txt.split("\n", 1)[0].split(":")[1].strip()
+    try:
+        import cvc5
+        slv = cvc5.Solver()
+        slv.setOption("tlimit-per", "5000")
+        pr = cvc5.InputParser(slv)
+        pr.setStringInput(cvc5.InputLanguage.SMT_LIB_2_6, txt, "q")
+        sm = pr.getSymbolManager()
+        got = "unknown"
+        while True:
+            cmd = pr.nextCommand()
+            if cmd.isNull():
+                break
+            out = cmd.invoke(slv, sm).strip()
+            if out in ("sat", "unsat", "unknown"):
+                got = out
+            elif "error" in out:
+                got = "error"
+                break
+    except BaseException as e:  # noqa: BLE001
+        got = "error"
+    try:
+        r = subprocess.run(["/usr/bin/z3", "-in", "-T:5"], input=txt, capture_output=True, text=True, timeout=20)
+        lines = [ln.strip() for ln in r.stdout.splitlines() if ln.strip()]
+        old = "error" if any(ln.startswith("(error") for ln in lines) else (lines[-1] if lines and lines[-1] in ("sat", "unsat") else "unknown")
+    except BaseException:  # noqa: BLE001
+        old = "error"
+    return want, got, old, os.path.basename(path)
+
+
 def _selftest_worker(stride):
     from pv.engine.selftest import run_selftest
     try:
@@ -152,6 +186,15 @@ def run_check(pid: str, modname: str, tier: str, level: str, argv=()):
     jobs = [(modname, c, tier, i) for i, c in enumerate(chunks) if c]
     twin_jobs = [(modname, [t], tier, -1) for t in twins]
 
+    # E3: sample deciding queries for a second and third solver (on by default; PV_XSOLVE=0 disables)
+    xdir = None
+    if os.environ.get("PV_XSOLVE", "1") != "0":
+        import tempfile
+        from pv.engine import explore as _ex
+        xdir = tempfile.mkdtemp(prefix="pv_xsolve_")
+        _ex.XSOLVE["dir"] = xdir
+        _ex.XSOLVE["every"], _ex.XSOLVE["cap"] = (25, 6) if tier == "quick" else (10, 40)
+
     ctx = mp.get_context("fork")
     results: list[ItemResult] = []
     twin_results: list[ItemResult] = []
@@ -179,6 +222,29 @@ def run_check(pid: str, modname: str, tier: str, level: str, argv=()):
             for out, fs in tw_async.get(timeout=stall):
                 twin_results.extend(out)
         selftest = st_async.get(timeout=stall)
+        xs = {"sampled": 0}
+        if xdir is not None:
+            files = sorted(os.path.join(xdir, f) for f in os.listdir(xdir))
+            if len(files) > (150 if tier == "quick" else 1500):
+                files = files[::max(1, len(files) // (150 if tier == "quick" else 1500))]
+            xres = pool.map(_xsolve_file, files, chunksize=4) if files else []
+            xs = {"sampled": len(xres), "cvc5_agree": 0, "cvc5_inconclusive": 0, "z3_4_8_agree": 0,
+                  "z3_4_8_inconclusive": 0, "disagreements": []}
+            for want, got, old, name in xres:
+                for key, v in (("cvc5", got), ("z3_4_8", old)):
+                    if v == want:
+                        xs[key + "_agree"] += 1
+                    elif v in ("sat", "unsat"):
+                        xs["disagreements"].append(f"{name}: z3 {want} but {key} {v}")
+                    else:
+                        xs[key + "_inconclusive"] += 1
+    if xdir is not None:
+        import shutil
+        if xs.get("disagreements"):
+            keep = os.path.join(VERIF, "replays", pid + "_xsolve")
+            shutil.rmtree(keep, ignore_errors=True)
+            shutil.copytree(xdir, keep)
+        shutil.rmtree(xdir, ignore_errors=True)
 
     errors = [r for r in results + twin_results if r.status == "error"]
     harness_errors = []
@@ -186,6 +252,8 @@ def run_check(pid: str, modname: str, tier: str, level: str, argv=()):
         harness_errors.append("translator self-test: " + selftest["error"])
     for r in errors:
         harness_errors.append(f"item {r.item}: {r.note}")
+    for dis in xs.get("disagreements", [])[:5]:
+        harness_errors.append("solvers disagree on a sampled query (kept under replays/%s_xsolve): %s" % (pid, dis))
     # twins must be detected
     twins_ok = 0
     for r in twin_results:
@@ -260,6 +328,7 @@ def run_check(pid: str, modname: str, tier: str, level: str, argv=()):
         "refused_items": len(refused),
         "twins": {"run": len(twin_results), "detected": twins_ok},
         "translator_selftest": selftest if "error" not in selftest else {"error": True},
+        "cross_solver": {k: v for k, v in xs.items() if k != "disagreements"},
         "functions_encoded": sorted(funcs),
         "bounds": getattr(mod, "BOUNDS", {}).get(tier, getattr(mod, "BOUNDS", {})),
         "known_findings_hit": {k: len(v) for k, v in known_hit.items()},
@@ -278,7 +347,8 @@ def run_check(pid: str, modname: str, tier: str, level: str, argv=()):
 
     print(f"[{pid}] tier={tier} items={len(results)} paths={tot('paths')} queries={tot('queries')} "
           f"(unsat={tot('unsat')} sat={tot('sat')} unknown={tot('unknown')}) solver={tot('solver_s'):.1f}s "
-          f"twins={twins_ok}/{len(twin_results)} wall={wall:.1f}s")
+          f"twins={twins_ok}/{len(twin_results)} xsolve={xs.get('sampled', 0)}"
+          f"(cvc5 {xs.get('cvc5_agree', 0)}, z3-4.8 {xs.get('z3_4_8_agree', 0)}) wall={wall:.1f}s")
     if inconclusive:
         print(f"INCONCLUSIVE {len(inconclusive)}")
         for r in inconclusive[:5]:
